@@ -2,8 +2,7 @@ import CssVerif.Model.Tok
 /-!
 # Specification functions for C05 (no regular expressions, no reference to the model's control flow)
 
-`unescape`, `stripCont`, `stringValue` — independent one-pass scanners for token values; `safe` — the guard that
-excludes the region of known finding C05-clean-decoded-newline; `lc` — line/column of a text position;
+`unescape`, `stringValue` — independent one-pass scanners for token values; `lc` — line/column of a text position;
 `tokenValue` — value of a token by type. The theorems of `Props/C05.lean` are stated against these functions; the
 driver exposes them so that the harness can compare them with the Python oracle's own specification functions.
 
@@ -63,41 +62,28 @@ def unescape (s : Cps) : Cps := unescapeF s.length s
 
 def isNl (c : Nat) : Bool := c == 10 || c == 13 || c == 12
 
-/-- length of a line continuation (backslash + newline; CR LF is one newline) at the start of `s` -/
-def contLen (s : Cps) : Option Nat :=
+/-- line and column of the code point that follows the text `pre`: lines are counted by line feeds,
+the column is 1 + the distance to the previous line feed -/
+def lc (pre : Cps) : Nat × Nat := (1 + pre.count 10, 1 + (pre.reverse.takeWhile (· != 10)).length)
+
+/-- length of the unit `stringsub` replaces at the start of `s`: an escaped backslash, a line continuation
+(backslash + newline, CR LF being one newline), or a hex escape with its optional terminator -/
+def strLen (s : Cps) : Option Nat :=
   match s with
   | [] => none
   | c :: t =>
     if c ≠ 92 then none
     else match t with
       | [] => none
-      | d :: u => if d = 13 ∧ u.head? = some 10 then some 3 else if isNl d then some 2 else none
+      | d :: u =>
+        if d = 92 then some 2
+        else if d = 13 ∧ u.head? = some 10 then some 3
+        else if isNl d then some 2
+        else if runLen isHex t 6 = 0 then none
+        else some (1 + runLen isHex t 6 + wsLen (t.drop (runLen isHex t 6)))
 
-/-- **Independent continuation remover**: one pass, drops backslash-newline -/
-def stripContF : Nat → Cps → Cps
-  | 0, _ => []
-  | _ + 1, [] => []
-  | f + 1, c :: t =>
-    match contLen (c :: t) with
-    | some l => stripContF f ((c :: t).drop l)
-    | none => c :: stripContF f t
-
-def stripCont (s : Cps) : Cps := stripContF s.length s
-
-/-- line and column of the code point that follows the text `pre`: lines are counted by line feeds,
-the column is 1 + the distance to the previous line feed -/
-def lc (pre : Cps) : Nat × Nat := (1 + pre.count 10, 1 + (pre.reverse.takeWhile (· != 10)).length)
-
-/-- value of a token of type `typ` whose text (with completion) is `found` -/
-def tokenValue (typ : String) (found : Cps) : Cps :=
-  if unescTypes.contains typ then
-    (if cleanTypes.contains typ then stripCont (unescape found) else unescape found)
-  else found
-
-/-- **Independent one-pass decoder for string tokens**: an escaped backslash stays, backslash-newline is dropped,
-a hex escape is decoded — all decided on the SOURCE text, left to right. (The code decodes hex escapes first and
-then removes backslash-newline from the DECODED text; the two differ exactly in the region of known finding
-`C05-clean-decoded-newline`.) -/
+/-- **Independent one-pass decoder for string tokens** (STRING, INVALID, URI): an escaped backslash stays,
+backslash-newline is dropped, a hex escape is decoded — all decided on the source text, left to right. -/
 def stringValueF : Nat → Cps → Cps
   | 0, _ => []
   | _ + 1, [] => []
@@ -117,49 +103,12 @@ def stringValueF : Nat → Cps → Cps
 
 def stringValue (s : Cps) : Cps := stringValueF s.length s
 
-/-- what the second pass (`cleanstring` on the decoded text) still has pending at a unit boundary -/
-inductive Prev where
-  | plain      -- nothing
-  | bs         -- the second half of an escaped backslash (decoded text ends in an unresolved `\`)
-  | contCR     -- a continuation backslash-CR (the second pass still looks for an LF)
-deriving DecidableEq, Repr
-
-def pend : Prev → Cps
-  | .plain => []
-  | .bs => [92]
-  | .contCR => [92, 13]
-
-def outp : Prev → Cps
-  | .plain => []
-  | .bs => [92]
-  | .contCR => []
-
-/-- the decoded code point `c` may follow the pending state without being swallowed by the second pass -/
-def okAfter (p : Prev) (c : Nat) : Bool := !(p == .bs && isNl c) && !(p == .contCR && c == 10)
-
-/-- **the exact guard**: one pass over the source text; `false` iff somewhere a decoded newline directly follows an
-escaped backslash (written `\\` or as a hex escape of U+005C), or a decoded LF directly follows a continuation
-backslash-CR — the region of known finding C05-clean-decoded-newline. -/
-def safeF : Nat → Prev → Cps → Bool
-  | 0, _, _ => true
-  | _ + 1, _, [] => true
-  | f + 1, p, c :: t =>
-    if c ≠ 92 then okAfter p c && safeF f .plain t
-    else match t with
-      | [] => true
-      | d :: u =>
-        if d = 92 then safeF f .bs u
-        else if d = 13 ∧ u.head? = some 10 then safeF f .plain (u.drop 1)
-        else if isNl d then safeF f (if d = 13 then .contCR else .plain) u
-        else if isHex d then
-          if hexNum (t.take (runLen isHex t 6)) = 0x5C then
-            safeF f .bs (t.drop (runLen isHex t 6 + wsLen (t.drop (runLen isHex t 6))))
-          else if hexNum (t.take (runLen isHex t 6)) ≤ 0x10FFFF then
-            okAfter p (hexNum (t.take (runLen isHex t 6))) &&
-              safeF f .plain (t.drop (runLen isHex t 6 + wsLen (t.drop (runLen isHex t 6))))
-          else safeF f .plain (t.drop (runLen isHex t 6 + wsLen (t.drop (runLen isHex t 6))))
-        else safeF f .plain t
-
-def safe (s : Cps) : Bool := safeF s.length .plain s
+/-- value of a token of type `typ` whose text (with completion) is `found`: the one-pass string decoding for
+STRING, INVALID and URI, the escape decoding for the other listed types, the text itself otherwise (comments are
+verbatim) -/
+def tokenValue (typ : String) (found : Cps) : Cps :=
+  if unescTypes.contains typ then
+    (if cleanTypes.contains typ then stringValue found else unescape found)
+  else found
 
 end CssVerif.Tok
